@@ -1,5 +1,6 @@
 use crate::{
-    LexerState, LuaFeatures, kind::LuaTokenKind, parser_error::LuaParseError, text::Reader,
+    LexerState, LuaFeatures, LuaLanguageLevel, kind::LuaTokenKind, parser_error::LuaParseError,
+    text::Reader,
 };
 
 use super::{is_name_continue, is_name_start, lexer_config::LexerConfig, token_data::LuaTokenData};
@@ -550,12 +551,12 @@ impl<'a> LuaLexer<'a> {
 
             self.reader.bump();
             match self.reader.current_char() {
-                'z' => {
+                // Lua 5.1 has no "\z": the backslash just quotes the 'z'
+                'z' if self.lexer_config.language_level != LuaLanguageLevel::Lua51 => {
                     self.reader.bump();
                     // "\z" skips the following span of white-space characters (isspace), incl. line breaks
-                    self.reader.eat_while(|c| {
-                        matches!(c, ' ' | '\t' | '\r' | '\n' | '\x0B' | '\x0C')
-                    });
+                    self.reader
+                        .eat_while(|c| matches!(c, ' ' | '\t' | '\r' | '\n' | '\x0B' | '\x0C'));
                 }
                 '\r' | '\n' => {
                     self.lex_new_line();
